@@ -218,6 +218,48 @@ def truncate_rules(ctx):
     other = g.orelse if fld == 'body' else g.body
     ctx.decide(always_raises(other) and 'IndexError' in raised_names(other), 'R-DOM', 'D6', f, g, 'else-indexerror',
                'otherwise IndexError is raised', detail='no IndexError branch')
+    # D7: truncate_array refuses an index for which a[:index] is not strictly shorter (C03); the values
+    # cut point equals len(values) whenever only zero-length subarrays are removed, and at this point the
+    # indices have already been truncated -> the call must not be reached with cut point == len(values)
+    for t in tcalls:
+        if not (t.args and subarray_role(ctx, t.args[0], f) == 'VALUESDIR'):
+            continue
+        a = get_arg(t, 1, 'index')
+        if a is None:
+            continue
+        tgt, key = norm(t.args[0]), norm(a)
+        lens = (f'len({tgt})', f'{tgt}.shape[0]', f'{tgt}._shape[0]')
+        verdict = None            # True: equal case excluded and shorter case kept
+        in_try = any(isinstance(p, ast.Try) and fld == 'body' and
+                     any(h.type is None or 'IndexError' in norm(h.type) or norm(h.type) in ('Exception', 'BaseException')
+                         for h in p.handlers) for p, fld in enclosing(f.node, t))
+        for p, fld in enclosing(f.node, t):
+            if not isinstance(p, ast.If) or key not in norm(p.test) or not any(l in norm(p.test) for l in lens):
+                continue
+            res = {}
+            for case, (va, vl) in {'equal': (3, 3), 'shorter': (1, 3)}.items():
+                env = {l: vl for l in lens}
+                env[key] = va
+                try:
+                    v = bool(fold(p.test, env))
+                    res[case] = v if fld == 'body' else not v
+                except Exception:
+                    res[case] = None
+            if res['equal'] is False and res['shorter'] is True:
+                verdict = True
+            elif None in res.values() and verdict is None:
+                verdict = 'unknown'
+        if verdict == 'unknown' and not in_try:
+            ctx.assume('R-BELIEF', 'D7', f, t, 'noop-values-truncation',
+                       'the values truncation is skipped when the cut point equals the current values length',
+                       detail='dominating test on the cut point is not a pure comparison')
+        else:
+            ctx.decide(verdict is True or in_try, 'R-BELIEF', 'D7', f, t, 'noop-values-truncation',
+                       'truncate_raggedarray: the values truncation (whose callee refuses index == len) is skipped when the '
+                       'cut point equals the current values length, i.e. when only zero-length subarrays are removed',
+                       detail='truncate_array raises IndexError for index == len(values); that happens after the indices were '
+                              'already truncated whenever all removed subarrays are empty: half-applied truncation, stale '
+                              'top-level descriptor and README')
     # indices truncated to newlen
     for t in tcalls:
         if t.args and subarray_role(ctx, t.args[0], f) == 'INDICESDIR':
